@@ -47,7 +47,9 @@ impl SupervisionTree {
     pub(crate) fn link(child: &ActorCell, supervisor: ActorCell) -> bool {
         let _mutation_guard = TREE_MUTATION_LOCK.lock().unwrap();
 
-        if child.get_status() >= super::actor_cell::ActorStatus::Draining
+        // A draining child is still alive (it works off its mailbox and will report its
+        // exit), only a stopping/stopped one can no longer be supervised.
+        if child.get_status() >= super::actor_cell::ActorStatus::Stopping
             || supervisor.get_status() >= super::actor_cell::ActorStatus::Draining
         {
             return false;
